@@ -175,6 +175,54 @@ func Narrow(p *core.Prog, r *core.Report) {
 			}
 		})
 	}
+	// NATIVE-SELECT: where a validator chooses between a typed facade (exact arithmetic per carrier) and the float64
+	// fallback according to a validity test of a result, the facade sits on the "valid" side: crossed, every integer
+	// whose constraint fits its type is compared as float64 (inexact above 2^53).
+	nSel := 0
+	for _, f := range p.Funcs {
+		fn := core.FuncName(f)
+		core.EachInstr(f, func(i ssa.Instruction) {
+			c, ok := i.(ssa.CallInstruction)
+			if !ok {
+				return
+			}
+			g := core.StaticCallee(c)
+			if g == nil || !p.InSubject(g) || !facades[core.FuncName(g)] {
+				return
+			}
+			for _, cd := range core.ControlConds(c.(ssa.Instruction).Block()) {
+				vc, isCall := cd.Value.(*ssa.Call)
+				if !isCall {
+					continue
+				}
+				h := core.StaticCallee(vc)
+				if h == nil || h.Signature.Recv() == nil || core.NamedOf(h.Signature.Recv().Type()) == nil || core.NamedOf(h.Signature.Recv().Type()).Obj().Name() != "Result" {
+					continue
+				}
+				// which way does the predicate answer for a result without errors? read off its body: validity is
+				// `len(Errors) == 0` (RESULT-ALGEBRA decides that): IsValid answers true, HasErrors false
+				validWhenTrue, known := false, false
+				switch h.Name() {
+				case "IsValid":
+					validWhenTrue, known = true, true
+				case "HasErrors", "HasErrorsOrWarnings":
+					validWhenTrue, known = false, true
+				}
+				if !known {
+					continue
+				}
+				nSel++
+				key := fn + ":" + core.FuncName(g) + ":selected-when-valid"
+				if cd.Sense == validWhenTrue {
+					r.OK(rule, key, p.Pos(c.Pos()), "the typed facade runs where the range check of the constraint passed")
+				} else {
+					r.Bad(rule, key, p.Pos(c.Pos()), "the typed facade runs where the range check of the constraint FAILED, the float64 fallback where it passed: every value whose constraint fits its type is compared as float64 (int64(2^53+1) is a multiple of 2, equals its neighbour for maximum/minimum)")
+				}
+			}
+		})
+	}
+	r.Count("native_select_sites", nSel)
+	r.Floor("native_select_sites", 3)
 	// NATIVE-DISPATCH: evaluated (constant propagation over the kind of the datum, nothing runs) for each Go
 	// numeric carrier type separately, every facade must reach the comparator of the matching exact arithmetic:
 	// signed kinds the int64 one, unsigned kinds the uint64 one, floats only the float64 one. A kind that falls
